@@ -75,10 +75,11 @@ Rank ==
 (* fast_epsilon_dominance_assignment(fronts[k], useq): every member gets a distance *)
 Crowd ==
   /\ scen = "rank" /\ phase = "ranked" /\ crowded < Len(fronts)
-  /\ LET k == crowded + 1 IN
-       dist' = [i \in Ids(P) |->
-          IF i \in ElemsOf(fronts[k])
-          THEN [num |-> CrowdNum(P, U, fronts[k], i), den |-> Len(fronts[k])]
+  /\ LET F == fronts[crowded + 1]
+         nums == CrowdNums(P, U, F)
+     IN dist' = [i \in Ids(P) |->
+          IF i \in ElemsOf(F)
+          THEN [num |-> nums[CHOOSE m \in DOMAIN F : F[m] = i], den |-> Len(F)]
           ELSE dist[i]]
   /\ crowded' = crowded + 1
   /\ UNCHANGED <<scen, P, useq, pop, coins, phase, fronts, sel>>
@@ -86,8 +87,9 @@ Crowd ==
 (* the same on an arbitrary list of individuals (here: the whole population) *)
 CrowdAll ==
   /\ scen = "rank" /\ phase = "ranked" /\ crowded = Len(fronts)
-  /\ LET F == Asc(Ids(P)) IN
-       dist' = [i \in Ids(P) |-> [num |-> CrowdNum(P, U, F, i), den |-> Len(F)]]
+  /\ LET F == Asc(Ids(P))
+         nums == CrowdNums(P, U, F)
+     IN dist' = [i \in Ids(P) |-> [num |-> nums[i], den |-> Len(F)]]
   /\ phase' = "done"
   /\ UNCHANGED <<scen, P, useq, pop, coins, fronts, crowded, sel>>
 
